@@ -135,7 +135,14 @@ CORPUS = [
     {"kind": "hist", "src": "def f(c: Parameter[List[List[bool]]], i: Qint[2], j: Qint[2], a: bool) -> bool:\n    return c[i][j] ^ a\n", "args": [["c", [["bool"] * 4] * 2], ["i", "Qint2"], ["j", "Qint2"], ["a", "bool"]], "ret": "bool", "params": [0],
      "history": [["bind", [((True, False, False, True), (False, True, True, True))]], ["bind", [((False, False, True, False), (True, True, False, False))]]], "feat": ["matrix_param"]},
     {"kind": "hist", "src": "def f(c: Parameter[List[List[Qint[2]]]], i: Qint[2]) -> Qint[2]:\n    s = 0\n    for r in c:\n        s = s ^ r[i]\n    return s + len(c)\n", "args": [["c", [["Qint2"] * 3] * 2], ["i", "Qint2"]], "ret": "Qint2", "params": [0],
-     "history": [["bind", [((1, 2, 3), (3, 0, 1))]], ["bind", [((0, 0, 1), (1, 3, 2))]]], "feat": ["matrix_param"]},
+     "history": [["bind", [((1, 2, 3), (3, 0, 1))]], ["bind", [((0, 0, 1), (1, 3, 2))]], ["bind", [((0, 2, 2), (1, 1, 3))]], ["bind", [((0, 1, 1), (2, 0, 0))]], ["bind", [((3, 3, 3), (0, 3, 3))]]], "feat": ["matrix_param"]},
+    # bound lists with equal neighbouring entries, looked up through a subscript expression / a loop variable
+    {"kind": "hist", "src": "def f(c: Parameter[Qlist[Qint[2], 4]], a: Tuple[Qint[2], bool]) -> Qint[2]:\n    return c[a[0]]\n", "args": [["c", ["Qint2"] * 4], ["a", ["Qint2", "bool"]]], "ret": "Qint2", "params": [0],
+     "history": [["bind", [(0, 1, 1, 2)]], ["bind", [(2, 0, 3, 3)]], ["bind", [(1, 2, 3, 2)]], ["bind", [(0, 1, 1, 2)]], ["bind", [(3, 3, 0, 0)]]], "feat": ["list_param_equal_neighbours"]},
+    {"kind": "hist", "src": "def f(c: Parameter[Qlist[Qint[2], 4]], i: Qint[2], b: bool) -> Qint[2]:\n    return c[i] + 1 if b else c[i]\n", "args": [["c", ["Qint2"] * 4], ["i", "Qint2"], ["b", "bool"]], "ret": "Qint2", "params": [0],
+     "history": [["bind", [(0, 1, 1, 2)]], ["bind", [(2, 2, 2, 1)]], ["bind", [(0, 3, 3, 3)]]], "feat": ["list_param_equal_neighbours"]},
+    {"kind": "hist", "src": "def f(c: Parameter[Qlist[bool, 4]], i: Qint[2], a: Tuple[Qint[2], bool]) -> bool:\n    return c[a[0]] ^ c[i]\n", "args": [["c", ["bool"] * 4], ["i", "Qint2"], ["a", ["Qint2", "bool"]]], "ret": "bool", "params": [0],
+     "history": [["bind", [(False, True, True, False)]], ["bind", [(True, False, False, False)]], ["bind", [(False, False, True, True)]]], "feat": ["list_param_equal_neighbours"]},
     {"kind": "hist", "src": "def f(c: Parameter[Qlist[bool, 2]]) -> bool:\n    return c[0] and c[1]\n", "args": [["c", ["bool", "bool"]]], "ret": "bool", "params": [0],
      "history": [["bind", [(True, True)]], ["bind", [(True, False)]], ["bind", [(True, True)]]], "feat": []},
 ]
